@@ -45,7 +45,10 @@ def main():
     demo = os.path.join(wt, 'seed', 'demo_%s.cpp' % label)
     out = os.path.join(VERIF, 'seeded', '%s-%s' % (prop, label))
     os.makedirs(out, exist_ok=True)
-    meta = dict(property=prop, label=label, ran=[])
+    meta = dict(property=prop, breaks_property=prop, label=label, ran=[])
+    needs_file = os.path.join(VERIF, 'seeded', 'needs.json')
+    if os.path.exists(needs_file):
+        meta['needs'] = json.load(open(needs_file)).get('%s-%s' % (prop, label), '')
     notes = os.path.join(wt, 'seed', 'NOTES.md')
 
     # ---- 1. confirm in the scratch worktree
